@@ -4,6 +4,7 @@
    primitives, Dcel/Proofs*.v, are added to this file as they are completed). *)
 From Coq Require Import ZArith List Bool Arith.
 Import ListNotations.
+From SpadeV Require Props.C02c.   (* constraint insertion model preserves link-level well-formedness *)
 From SpadeV Require Import Geom.Pred Obs.State Obs.Spec Obs.SpecProp Obs.SpecProofs Vmap.Model Dcel.Raw Dcel.WfCore Gen.DcelOps.
 From SpadeV Require Dcel.ProofsInsertTriangle Dcel.ProofsSplit Dcel.ProofsFlip Dcel.ProofsHull.
 From SpadeV Require Props.C02b.   (* whole insertions: C02_insert_into_face, C02_insert_on_inner_edge, C02_insert_on_hull_edge, C02_insert_outside_hull, C02_insert_existing_position *)
